@@ -1097,7 +1097,9 @@ def relevant(prop, ops, k, a, b):
 # ------------------------------------------------------------------------------------------------
 # zero-sized payload build: same histories, observations compared up to what a ZST can show
 
-SIZED_CTORS = ("new", "newB", "fromBox", "uniqueNew", "newUninit", "uniqueNewUninit", "default")
+# constructors that accept a zero-sized element / payload type (`from_header_and_iter` / `_slice` refuse it up front;
+# `from_header_and_vec` — hence `From<Vec<T>>` and the inexact-iterator path — does not)
+SIZED_CTORS = ("new", "newB", "fromBox", "uniqueNew", "newUninit", "uniqueNewUninit", "default", "fromVec", "hsFromVec", "hwlFromVec")
 
 
 def zst_applicable(h):
@@ -1133,6 +1135,43 @@ def project_zst(line):
     return "%s out=%s ev=[%s] aux=%d | %s" % (o["status"], out, " ".join(sorted(evs)), o["aux"], slots)
 
 
+def zst_drop_accounting(ops, iobs_raw):
+    """zero-sized values have no identity, but their number is known: every value handed to a constructor or made by
+    Clone is destroyed at most once, so at no point may the destructor have run more often than values exist; and a
+    constructor that succeeds destroys none of the values it was given."""
+    fails = []
+    made = 0
+    dropped = 0
+    for k in range(1, len(ops)):
+        o = iobs_raw[k] if k < len(iobs_raw) else None
+        if o is None:
+            break
+        f = ops[k].split()
+        given = 0
+        if f[0] == "create" and o["status"] != "bad-op":
+            if f[2] in ("new", "newB", "fromBox", "uniqueNew", "default"):
+                given = 1
+            elif f[2] == "fromVec":
+                given = 0 if f[4] == "-" else len(f[4].split(","))
+            elif f[2] == "hsFromVec":
+                given = 1 + (0 if f[5] == "-" else len(f[5].split(",")))
+            elif f[2] == "hwlFromVec":
+                given = 1 + (0 if f[6] == "-" else len(f[6].split(",")))
+            elif f[2] == "hsUninit":
+                given = 1
+        if f[0] == "writeSlot" and o["status"] != "bad-op":
+            given = 1
+        made += given + sum(1 for e in o["ev"] if e.startswith("clone:"))
+        nd = sum(1 for e in o["ev"] if e.startswith("drop:"))
+        dropped += nd
+        if f[0] == "create" and o["status"] == "ok" and nd:
+            fails.append((k, ["C01", "C06"], "the constructor destroyed %d of the (zero-sized) values it was given: they must be moved into the allocation" % nd))
+        if dropped > made:
+            fails.append((k, ["C01", "C06", "C07"], "%d destructor runs so far but only %d (zero-sized) values ever existed: something was destroyed twice" % (dropped, made)))
+            break
+    return fails
+
+
 def zst_eval(harness_exe_zst, model_exe, ops):
     """one history on the ZST build: (first projected disagreement or None, monitor failures, rc)"""
     il, ml, irc = run_one(harness_exe_zst, model_exe, ops)
@@ -1145,12 +1184,13 @@ def zst_eval(harness_exe_zst, model_exe, ops):
             break
     # the verdict / count / block monitors still apply; value-identity ones do not (a ZST has none)
     iobs = [parse_obs(x) if k > 0 else None for k, x in enumerate(il)]
+    extra = zst_drop_accounting(ops, [dict(o, ev=list(o["ev"])) if o else None for o in iobs])
     for o in iobs:
         if o:
             o["ev"] = [e for e in o["ev"] if not e.startswith("drop:")]
             for s2 in o["slots"].values():
                 s2["dig"] = "_"
-    mon = [(k, props, msg + " [zero-sized payload build]") for (k, props, msg) in monitor_history(ops, iobs)
+    mon = [(k, props, msg + " [zero-sized payload build]") for (k, props, msg) in monitor_history(ops, iobs) + extra
            if "visible" not in msg and "delivered" not in msg and "digest" not in msg]
     return dis, mon, irc, il, ml
 
@@ -1173,12 +1213,13 @@ def run_zst_pass(ctx, histories, harness_exe_zst, model_exe):
                 dis.append((idx[hi], k, a, b))
                 break
         iobs = [parse_obs(x) if k > 0 else None for k, x in enumerate(il)]
+        extra = zst_drop_accounting(ops, [dict(o, ev=list(o["ev"])) if o else None for o in iobs])
         for o in iobs:
             if o:
                 o["ev"] = [e for e in o["ev"] if not e.startswith("drop:")]
                 for s2 in o["slots"].values():
                     s2["dig"] = "_"
-        for (k, props, msg) in monitor_history(ops, iobs):
+        for (k, props, msg) in monitor_history(ops, iobs) + extra:
             if "visible" not in msg and "delivered" not in msg and "digest" not in msg:
                 mon.append((idx[hi], k, props, msg + " [zero-sized payload build]"))
     return len(hs), dis, mon, [(idx[k], rc) for k, rc in crashes]
